@@ -257,6 +257,14 @@ def loom_part(ctx, pid):
             if not msg:
                 ctx.machinery("filoom run %s exited with status %s without a loom failure message:\n%s" % (name, p.returncode, "\n".join(lines[-15:])))
             who = loom_attribution(name, props, msg)
+            if "deadlock" in msg and name.startswith("sem_") and "C06" in who:
+                # a semaphore scenario can also deadlock because permits were lost (C05), in which
+                # case no wake-up is missing: if the non-blocking conservation scenario fails too,
+                # the deadlock is attributed to C05
+                p2, _ = ctx.run_engine([exe, "run", "sem_try_conserve", "--pb", pb, "--max-secs", cap], int(cap) + 120, "filoom run sem_try_conserve", env=ctx.env)
+                if p2.returncode != 0:
+                    who = (who - {"C06"}) | {"C05"}
+                    msg = msg + " [permits are not conserved (scenario sem_try_conserve fails): attributed to C05]"
             runs.append({"scenario": name, "preemption_bound": pb, "schedules": None, "wall_s": round(wall, 2), "result": "FAILED: " + msg[:300], "attributed_to": sorted(who)})
             if pid in who:
                 viols.append({"engine": "E-LOOM", "property": pid, "scenario": name, "preemption_bound": pb, "checkpoint_file": ck, "message": msg[:600],
